@@ -79,7 +79,7 @@ func cmdRun(args []string) int {
 		return 2
 	}
 	fmt.Printf("loaded in %v, ssa in %v\n", w.LoadTime, w.SSATime)
-	sp := w.SSAPkgs[sx.ModulePath+"/"+*pkg]
+	sp := w.SSAPkgs[pkgPath(*pkg)]
 	if sp == nil {
 		fmt.Fprintln(os.Stderr, "package not found")
 		return 2
@@ -180,4 +180,12 @@ func printResult(r *sx.HarnessResult, verbose bool) {
 			fmt.Printf("   path: %s\n", s)
 		}
 	}
+}
+
+// pkgPath maps a package path relative to the module ("." = the root package) to its import path.
+func pkgPath(rel string) string {
+	if rel == "." || rel == "" {
+		return sx.ModulePath
+	}
+	return sx.ModulePath + "/" + rel
 }
